@@ -371,7 +371,7 @@ fn check(case: &C01Case) -> CaseOutcome
 
 pub fn run(env: &Env, rec: &Recorder) -> (String, Vec<&'static str>)
 {
-    pbt(env, rec, "ids", env.cases(1500, 40_000), &strategy, &check);
+    pbt(env, rec, "ids", env.cases(4000, 60_000), &strategy, &check);
     (
         "trees of 1-8 files with 0-12 statements each; every statement independently missing / carrying an ID / ignored / unusable / commented-out; ID classes small-dense, sparse, 0, u32::MAX-j, arbitrary, duplicates; both styles; lock absent / disabled with arbitrary content / consistent (max+1+delta, incl. values whose range crosses u32::MAX). Oracle over the decomposed insertions: pairwise distinct, disjoint from IDs of recognised statements, within 1..=4294967295, above max existing (no lock) or >= lock; on exhaustion exit != 0 and still no duplicate / out-of-range ID. Non-trivial = distinct tree where >= 2 files receive insertions and IDs exist, or a boundary-class tree with missing references".to_string(),
         vec!["inconsistent locks (behind the tree) are outside the statement and not generated", "IDs of statements outside the scanned set (comments, ignored) may collide and are not required disjoint"],
